@@ -125,19 +125,24 @@ Theorem C09_sm_restrict : forall rd ops nm em gfull,
 Proof. exact reachable_restrict. Qed.
 Print Assumptions C09_sm_restrict.
 
-(* the one-shot function is the special case  init; read_node_props; read_edge_props; build *)
+(* the one-shot function is the special case  init; read_node_props; read_edge_props; build  -- for every name
+   list, repeated names included (Read.build's dictionary insertion = the object's) *)
 Theorem C09_sm_oneshot : forall rd nn en nm em g,
-  NoDup (names_or nn (rd_nnames rd)) -> NoDup (names_or en (rd_enames rd)) ->
-  (build rd nn en nm em = Ok g <->
-   results (sm_init rd) [RNode nn; REdge en; Build nm em] = [Ok None; Ok None; Ok (Some g)]).
-Proof. exact sm_oneshot. Qed.
+  build rd nn en nm em = Ok g <->
+  results (sm_init rd) [RNode nn; REdge en; Build nm em] = [Ok None; Ok None; Ok (Some g)].
+Proof. exact sm_oneshot_gen. Qed.
 Print Assumptions C09_sm_oneshot.
 
+Theorem C09_sm_dedupe : forall rd nn en nm em g,
+  build rd (Some nn) (Some en) nm em = Ok g <-> build rd (Some (first_occ nn)) (Some (first_occ en)) nm em = Ok g.
+Proof. exact build_dedupe. Qed.
+Print Assumptions C09_sm_dedupe.
+
+(* read_to_memory = GeffReader(...); read_node_props; read_edge_props; build() : C01's statements about
+   read_to_memory are statements about this call sequence *)
 Theorem C09_sm_read_to_memory : forall k s v nn en g,
-  (forall rd, reader_init k s v = Ok rd ->
-     NoDup (names_or nn (rd_nnames rd)) /\ NoDup (names_or en (rd_enames rd))) ->
-  (read_to_memory k s v nn en = Ok g <-> read_to_memory_sm k s v nn en = Ok g).
-Proof. exact read_to_memory_sm_eq. Qed.
+  read_to_memory k s v nn en = Ok g <-> read_to_memory_sm k s v nn en = Ok g.
+Proof. exact read_to_memory_sm_eq_gen. Qed.
 Print Assumptions C09_sm_read_to_memory.
 
 (* build does not change the object: a build anywhere in a sequence can be removed without changing the final
